@@ -17,7 +17,7 @@ these templates frame by frame.
 import collections
 import z3
 
-from migen.fhdl.structure import (Signal, Constant, Cat, Replicate, If, Case,
+from migen.fhdl.structure import (Signal, Constant, Cat, Replicate, If, Case, Mux,
                                   ClockSignal, ResetSignal, ClockDomain,
                                   _Operator, _Slice, _Part, _ArrayProxy,
                                   _Assign, _Fragment, _Value, Display)
@@ -214,6 +214,62 @@ def _group(statements):
         rest.append((merged_t, merged_s))
         groups = rest
     return groups
+
+
+class MemoryToWatched:
+    """Sound abstraction of selected memories (same port semantics as migen's MemoryToArray, line by line): only ONE word,
+    at a symbolic watch address, is stored; a read of any other address returns a fresh free input (arbitrary contents).  Every
+    behaviour of the real memory is a behaviour of the abstraction, so `unsat` carries over; a counterexample is replayed on the
+    un-abstracted design before it is reported."""
+    def __init__(self, select):
+        self.select = select
+        self.free_inputs = []
+        self.words = {}
+
+    def transform_fragment(self, f):
+        from migen.fhdl.specials import Memory, WRITE_FIRST, NO_CHANGE
+        keep = set()
+        processed = set()
+        for mem in sorted(f.specials, key=lambda m: getattr(m, "duid", 0)):
+            wa = self.select(mem) if isinstance(mem, Memory) else None
+            if wa is None:
+                keep.add(mem)
+                continue
+            if mem.init is not None and any(mem.init):
+                raise EncodeError("memory abstraction needs a zero/absent init image")
+            k = len(self.words)
+            wd = Signal(mem.width, name_override="memabs%d_word" % k)
+            self.words[mem] = wd
+
+            def rd(adr, k=k, mem=mem, wd=wd, wa=wa):
+                fr = Signal(mem.width, name_override="memabs%d_free%d" % (k, len(self.free_inputs)))
+                self.free_inputs.append(fr)
+                return Mux(adr == wa, wd, fr)
+            for port in mem.ports:
+                sync = f.sync.setdefault(port.clock.cd, [])
+                if port.async_read:
+                    f.comb.append(port.dat_r.eq(rd(port.adr)))
+                else:
+                    if port.mode == WRITE_FIRST:
+                        adr_reg = Signal.like(port.adr)
+                        rd_stmt = adr_reg.eq(port.adr)
+                        f.comb.append(port.dat_r.eq(rd(adr_reg)))
+                    elif port.mode == NO_CHANGE and port.we is not None:
+                        rd_stmt = If(~port.we, port.dat_r.eq(rd(port.adr)))
+                    else:
+                        rd_stmt = port.dat_r.eq(rd(port.adr))
+                    sync.append(rd_stmt if port.re is None else If(port.re, rd_stmt))
+                if port.we is not None:
+                    hit = port.adr == wa
+                    if port.we_granularity:
+                        n = mem.width // port.we_granularity
+                        for i in range(n):
+                            m, M = i * port.we_granularity, (i + 1) * port.we_granularity
+                            sync.append(If(port.we[i] & hit, wd[m:M].eq(port.dat_w[m:M])))
+                    else:
+                        sync.append(If(port.we & hit, wd.eq(port.dat_w)))
+                processed.add(port)
+        f.specials = keep - processed
 
 
 class Design:
